@@ -114,7 +114,8 @@ def _run_queue(jobs_by_key):
     import queue
     import threading
     q = queue.Queue()
-    for key, js in jobs_by_key.items():
+    # longest-budget groups first (a crude longest-processing-time-first rule: the heavy obligations start early)
+    for key, js in sorted(jobs_by_key.items(), key=lambda kv: -kv[0][1]):
         for j in js:
             q.put((key, j))
     out = {}
